@@ -214,7 +214,27 @@ class C02(E1Prop):
             space = fault_space(base['mut'])
             r = random.Random(op['pick'])
             if op.get('nfaults') and len(space) > op['nfaults']:
-                space = r.sample(space, op['nfaults'])
+                # faults on the operations that move destination branches
+                # first (that is where all-or-none is decided), then a
+                # seeded sample of the rest
+                mut = base['mut']
+
+                def on_dest(f):
+                    if f['kind'] == 'reject':
+                        return ref_class(f['ref']) in (
+                            'development', 'stabilization', 'hotfix')
+                    m = mut[f['at']] if f['at'] < len(mut) else None
+                    return bool(m and m['kind'] == 'push' and any(
+                        ref_class(x) in ('development', 'stabilization',
+                                         'hotfix')
+                        for x in (m.get('changed') or {})))
+                prio = [f for f in space if on_dest(f)]
+                rest = [f for f in space if not on_dest(f)]
+                if len(prio) > 8:
+                    prio = r.sample(prio, 8)
+                k = max(2, op['nfaults'] - len(prio))
+                space = prio + (r.sample(rest, k) if len(rest) > k
+                                else rest)
             op['faults'] = space
             op['mut_clean'] = [m.get('cmd') or m.get('call')
                                for m in base['mut']]
